@@ -40,6 +40,8 @@ func getOptNil(prog *core.Program, u *astUniverse) *optNil {
 	o := &optNil{prog: prog, u: u, optional: map[*types.Var]string{}, deref: map[*ssa.Function]map[int]bool{}}
 	o.computeOptional()
 	o.computeDerefSummaries()
+	o.computeNilSwitchSummaries()
+	o.computeDerefSummaries()
 	optNilCache = o
 	return o
 }
@@ -243,6 +245,79 @@ func (o *optNil) computeDerefSummaries() {
 						changed = true
 						break
 					}
+				}
+			}
+		}
+	}
+}
+
+// computeNilSwitchSummaries: a nil interface handed to a function that type-switches on it fails every case and lands
+// in the arm behind all of them. When the function is walked with the parameter known to be nil - every comma-ok type
+// assertion of it fails, every nil test of it is decided, every other branch is not looked at: only blocks reached
+// whatever those decide count - and a method call on the parameter (or a hand-over to a callee with the same summary)
+// is reached on every such walk, nil crashes there.
+func (o *optNil) computeNilSwitchSummaries() {
+	funcs := o.prog.ModuleFuncs()
+	for changed := true; changed; {
+		changed = false
+		for _, fn := range funcs {
+			for i, p := range fn.Params {
+				if o.deref[fn][i] {
+					continue
+				}
+				if _, isIface := p.Type().Underlying().(*types.Interface); !isIface {
+					continue
+				}
+				// must-reach set under p == nil: follow decided branches; at an undecided branch stop (nothing beyond it
+				// is certain) unless both successors are the same
+				b := fn.Blocks[0]
+				seen := map[*ssa.BasicBlock]bool{}
+				crash := false
+				for b != nil && !seen[b] && !crash {
+					seen[b] = true
+					for _, in := range b.Instrs {
+						if ci, ok := in.(ssa.CallInstruction); ok {
+							cc := ci.Common()
+							if cc.IsInvoke() && cc.Value == ssa.Value(p) {
+								crash = true
+							}
+							if cal := cc.StaticCallee(); cal != nil {
+								for j, a := range cc.Args {
+									if a == ssa.Value(p) && o.deref[cal][j] {
+										crash = true
+									}
+								}
+							}
+						}
+						if ta, ok := in.(*ssa.TypeAssert); ok && ta.X == ssa.Value(p) && !ta.CommaOk {
+							crash = true
+						}
+					}
+					var next *ssa.BasicBlock
+					switch t := b.Instrs[len(b.Instrs)-1].(type) {
+					case *ssa.Jump:
+						next = b.Succs[0]
+					case *ssa.If:
+						// comma-ok assertion of p: fails
+						if ex, ok := t.Cond.(*ssa.Extract); ok && ex.Index == 1 {
+							if ta, ok := ex.Tuple.(*ssa.TypeAssert); ok && ta.X == ssa.Value(p) {
+								next = b.Succs[1]
+							}
+						}
+						if bo, eq, ok := core.EqCond(t.Cond); ok && next == nil {
+							if (bo.X == ssa.Value(p) && core.IsNilConst(bo.Y)) || (bo.Y == ssa.Value(p) && core.IsNilConst(bo.X)) {
+								next = b.Succs[eq]
+							}
+						}
+					}
+					b = next
+				}
+				if crash {
+					if o.deref[fn] == nil {
+						o.deref[fn] = map[int]bool{}
+					}
+					o.deref[fn][i] = true
+					changed = true
 				}
 			}
 		}
